@@ -64,6 +64,9 @@ def gen_case(rng):
                         "r": rng.choice([0, 0, 1, 2, 3]), "b": rng.choice([0, 0, 1, 2])}
     if kind != "old" and rng.random() < 0.3:  # (old + format route is set above)
         c["via"] = "renderable"
+    elif kind != "old" and rng.random() < 0.25:
+        # an iterator frame: render size set on the iterator (different from the renderable's own)
+        c["via"], c["own_size"], c["order"] = "iterator", [rng.randint(1, 6), rng.randint(1, 5)], rng.randrange(2)
     return c
 
 
@@ -84,6 +87,13 @@ def corpus():
             cs.append({"render": blk, "term_size": [9, 7], "fill": "space",
                        "padding": {"kind": "old", "W": 0, "H": -2, "ha": ha, "va": va}})
     cs.append({"render": kit, "term_size": [9, 7], "fill": "space", "padding": {"kind": "exact", "l": 1, "t": 0, "r": 0, "b": 2}})
+    # iterator frames: set_render_size() then set_padding() (and the reverse order)
+    for order in (0, 1):
+        for own in ([1, 1], [3, 3], [6, 5]):
+            cs.append({"render": blk, "term_size": [9, 7], "fill": "star", "via": "iterator", "own_size": own, "order": order,
+                       "padding": {"kind": "exact", "l": 1, "t": 1, "r": 1, "b": 1}})
+            cs.append({"render": blk, "term_size": [9, 7], "fill": "space", "via": "iterator", "own_size": own, "order": order,
+                       "padding": {"kind": "aligned", "W": 7, "H": 5, "ha": 0, "va": 2}})
     # format-spec route: explicit zero / absent width and height
     for W, H, pres in ((0, 0, 0), (0, 0, 1), (5, 0, 0), (0, -2, 1), (6, 4, 2), (0, 3, 0)):
         cs.append({"render": blk, "term_size": [9, 7], "fill": "space", "via": "format", "pres": pres,
